@@ -207,6 +207,29 @@ def _req_kind(r):
 RETRYABLE = [gex.ServiceUnavailable, gex.InternalServerError, gex.Unknown]
 
 
+ORIG_DEMUX = sm.ResponseDemux
+
+
+class RecordingDemux(ORIG_DEMUX):
+    """Same behaviour; additionally remembers which task subscribed to which future (harness bookkeeping only:
+    lets the harness tell whether an execution coroutine had a live subscription when stop() was called)."""
+
+    instances = []
+
+    def __init__(self):
+        super().__init__()
+        self.by_task = {}
+        RecordingDemux.instances.append(self)
+
+    def subscribe(self, message_id):
+        fut = super().subscribe(message_id)
+        try:
+            self.by_task[asyncio.current_task()] = fut
+        except RuntimeError:
+            pass
+        return fut
+
+
 class Scenario:
     def __init__(self, njobs=1, pre_prog=False, pre_jobs=(), failing=(), breaks=1, fatal=0, srverr=0, cancel=0, stop=0,
                  deviations=0, resubmit_after_stop=False, retry_exc=0, submit_all_first=False, late=False):
@@ -231,6 +254,8 @@ class StreamRun:
         self.loop_excs = []
         self.loop.set_exception_handler(lambda l, ctx: self.loop_excs.append(ctx))
         self.srv = ModelServer(sc.pre_prog, sc.pre_jobs, sc.failing)
+        RecordingDemux.instances = []
+        sm.ResponseDemux = RecordingDemux
         self.mgr = sm.StreamManager(self.srv)
         self.futs = {}
         self.expected = {}  # k -> 'result' | 'cancelled' | 'fatal' | 'streamerror' | 'fatal_or_result' | 'streamerror_or_cancelled'...
@@ -337,7 +362,13 @@ class StreamRun:
         elif kind == "stop":
             self.budget["stop"] -= 1
             pend = self.pending()
-            self.stop_raced |= {k for k in pend if inspect.getcoroutinestate(self.futs[k].task.get_coro()) == inspect.CORO_CREATED}
+            for k in pend:
+                task = self.futs[k].task
+                subscribed = any((f := d.by_task.get(task)) is not None and not f.done() for d in RecordingDemux.instances)
+                if inspect.getcoroutinestate(task.get_coro()) == inspect.CORO_CREATED or not subscribed:
+                    # stop() cannot reach an execution coroutine that has no live subscription (not started yet,
+                    # or between a received response and its retry request): the known submit/stop finding
+                    self.stop_raced.add(k)
             self.mgr.stop()
             self.stopped = True
             for k in pend:
@@ -1397,7 +1428,7 @@ def run_demux(case):
     loop = vloop.VLoop()
     vloop.install(loop)
     try:
-        d = sm.ResponseDemux()
+        d = ORIG_DEMUX()
         model = {}  # id -> state 'waiting'
         futs = {}
         expect = {}  # fut index -> expected final state
